@@ -1,10 +1,11 @@
 (* C12  Header text survives encoding.  Statements only.
-   What is PROVED here is the part about encoded-words; the full round trip
-   decode_unstructured (encode v) = v is established by running the extracted reader on the
-   implementation's output (exhaustive small alphabet + families), see DESIGN.md. *)
+   What is PROVED here: the part about encoded-words, and the whole round trip for values that need no
+   encoding (C12_plain_value_unfolds).  The round trip decode_unstructured (encode v) = v for values that DO
+   need encoding is established by running the extracted reader on the implementation's output (exhaustive
+   small alphabet + families), see DESIGN.md. *)
 From Coq Require Import Strings.String.
-From LV Require Import Base.Bytes Base.Str Base.Base64 Model.HeaderEnc Spec.Rfc2047 Proofs.Rfc2047Proofs
-  Proofs.Base64Proofs.
+From LV Require Import Base.Bytes Base.Str Base.Res Base.Base64 Model.HeaderEnc Spec.Rfc2047 Proofs.Rfc2047Proofs
+  Proofs.Base64Proofs Spec.Rfc5322 Proofs.HeaderPlainProofs.
 
 (* Every encoded-word the encoder writes - "=?utf-8?b?" base64(word) "?=" for a piece of at most
    45 bytes - is a valid RFC 2047 encoded-word on its own, is at most 75 characters long, and a
@@ -28,6 +29,22 @@ Example C12_example_rt :
   decode_unstructured (bs "=?utf-8?b?w6kgIMOp?= plain") = [195; 169; 32; 32; 195; 169; 32] ++ bs "plain".
 Proof. vm_compute. reflexivity. Qed.
 
+(* Values that need no encoding - every space-delimited word consists of TAB / printable ASCII and holds no
+   whole "=?...?=" token -, of ANY length: HeaderValue::new succeeds and a reader that unfolds gets back
+   exactly the value, every inner and trailing space included (folding only ever inserts CRLF in front of
+   a run of spaces).  No encoded-word is written, so nothing is decoded. *)
+Theorem C12_plain_value_unfolds : forall name value : bytes,
+  Forall (fun w => allowed_str w = true) (split_inclusive_sp value) ->
+  exists e, header_value_encode name value = Ok e /\ unfold e = value.
+Proof. exact plain_value_unfolds. Qed.
+
+Example C12_plain_example :
+  let v := bs "a long subject with  two spaces, a tab	here and trailing blanks   " ++ flat_map (fun _ => bs " word") (seq 0 30) in
+  Forall (fun w => allowed_str w = true) (split_inclusive_sp v) /\
+  match header_value_encode (bs "Subject") v with Ok e => unfold e = v /\ (length v < length e)%nat | _ => False end.
+Proof. split; [vm_compute; repeat constructor|vm_compute; split; [reflexivity|repeat constructor]]. Qed.
+
+Print Assumptions C12_plain_value_unfolds.
 Print Assumptions C12_words_valid.
 Print Assumptions C12_piece_bound.
 Print Assumptions C12_b64_roundtrip.
